@@ -79,6 +79,30 @@ fn shared_receive_repoll_then_woken_through_latest_waker() {
     core::mem::forget((s, r));
 }
 
+/// C12 through the SHARED handles: exactly one receive yields the value, every other one None; a second send fails
+#[kani::proof]
+fn shared_exactly_one_receive_yields_the_value() {
+    use core::future::Future;
+    let (s, r) = generic_oneshot_channel::<NoopLock, u8>();
+    let wk = unsafe { core::task::Waker::from_raw(core::task::RawWaker::new(core::ptr::null(), &NOOP)) };
+    let mut cx = core::task::Context::from_waker(&wk);
+    let v: u8 = kani::any();
+    let early: bool = kani::any();
+    let mut f0 = core::mem::ManuallyDrop::new(r.receive());
+    if early {
+        let p = unsafe { core::pin::Pin::new_unchecked(&mut *f0) }.poll(&mut cx);
+        assert!(p.is_pending(), "[C12] nothing to receive before the send");
+    }
+    assert!(s.send(v).is_ok(), "[C12] the first send on an open channel succeeds");
+    let p = unsafe { core::pin::Pin::new_unchecked(&mut *f0) }.poll(&mut cx);
+    assert!(p == core::task::Poll::Ready(Some(v)), "[C12] the receive yields the value");
+    let mut f1 = core::mem::ManuallyDrop::new(r.receive());
+    let p = unsafe { core::pin::Pin::new_unchecked(&mut *f1) }.poll(&mut cx);
+    assert!(p == core::task::Poll::Ready(None), "[C12] single consumer: every other receive yields None");
+    assert!(s.send(v).is_err(), "[C12] every other send fails");
+    core::mem::forget((s, r));
+}
+
 /// C01 for the shared flavour: a waiting shared receive future that is dropped is no longer in the channel's wait queue
 /// (its Drop forwards to the channel), and the later send / close wakes nobody
 #[kani::proof]
